@@ -128,8 +128,8 @@ Emit == (EmitCases /\ st = 1) =>
             PrintT(ToJson([kind |-> "exp", n |-> ca.n, ac |-> ca.ac, A |-> ca.v.A, t |-> ca.v.t, s |-> ca.s, k |-> ca.k,
                            EA |-> ExpAffine(ca.v, ca.s, ca.k).A, Et |-> ExpAffine(ca.v, ca.s, ca.k).t,
                            \* the field read as a displacement F: first two logv iterates (only if id + F keeps the hull)
-                           logv |-> IF KeepsHull(ca.v, ca.n, ca.ac) /\ ca.k >= 1 /\ ca.s = One
-                                    THEN (IF ca.k = 1 THEN <<AffHom(Logv(ca.v, ca.k, 1)), AffHom(Logv(ca.v, ca.k, 2))>>
+                           logv |-> IF KeepsHull(ca.v, ca.n, ca.ac) /\ ca.s = One
+                                    THEN (IF ca.k <= 1 THEN <<AffHom(Logv(ca.v, ca.k, 1)), AffHom(Logv(ca.v, ca.k, 2))>>
                                           ELSE <<AffHom(Logv(ca.v, ca.k, 1))>>)    \* (second iterate exceeds 32-bit rationals for k = 2)
                                     ELSE <<>>]))
       [] ca.kind = "compose" ->
